@@ -17,7 +17,7 @@ import (
 func init() {
 	register(&Spec{ID: "C17", Title: "Connection descriptions round-trip and never crash the parser", Run: runC17,
 		Meta: core.Meta{
-			Explanation: "R17.17: the exported TagToField returns the result of tagToField itself. R17.16: every way round FormatSimple's member loop passes the append of key=value. R17.15: setValue hands its value parameter itself to SetString/ParseBool/ParseInt, and FromEnv hands setValue element 1 of the KEY=value split (strings.SplitN) itself. R17.14: every fmt.Sprintf/Errorf/Fprintf call in package dsn has a constant format string. R17.13 (E-CONST): the call of ParseURI in Parse is guarded by a strings test whose constant is \"://\". R17.12: package dsn never calls url.PathEscape and FormatURI writes the properties through url.Values.Encode or url.QueryEscape (the escaping url.Query() inverts). Totality and rejection clauses of the property; round-trip equality is not decided. R17.1 (E-LEN): every slice/string index and slice expression in the functions reachable from dsn.Parse, ParseURI, ParseSimple, FormatURI, FormatSimple and FromEnv is proved in range from length facts (dominating len tests, `!= \"\"`, strings.Split/SplitN post-conditions, range/induction patterns) or is a listed reviewed invariant whose guard is re-checked; anything else is a violation (user-supplied DSN text can reach it). R17.2: in both parsers every setValue call is preceded by a comma-ok lookup of the key in the tag-to-field map whose !ok edge returns a non-nil error, and the looked-up field is the one set. R17.3 (E-CONST): the reflect.Kind case sets of setValue and of the formatters agree and setValue's default arm returns an error. R17.4: TagToField never registers the empty string as a key (every map update whose key comes from a split tag is guarded by key != \"\"), so an empty key cannot match a field. R17.5: in ParseURI the value used for a repeated query key is the LAST element of its value list (values[len(values)-1]). R17.7: ParseSimple only strips the surrounding quotes, so FormatSimple must put a string member between quotes unchanged: every use of the member's text in FormatSimple is fmt.Sprintf(\"%q\", s) or strconv.Quote(s) (identity on printable text without quotes and backslashes, non-ASCII included) or a plain concatenation with quote characters; %+q / QuoteToASCII and anything else is rejected. R17.9: in FormatURI every branch condition that depends on a member's text is the comparison of that text itself with the empty string (the documented `not set` skip); a test on a transformed copy (trimmed, lower-cased, its length against another bound) leaves values out of the URI that ParseURI then cannot restore. R17.10: setValue parses reflect.Int members with strconv.ParseInt(..., 0) or (..., 64) — the formatters write the full int, a narrower bitSize rejects values the library itself produced. R17.9 also covers the variables that carry a member's text out of the loop (user, password, host, port): no branch on them other than the comparison of the text with \"\". R17.11 (E-CONST over struct tags): every name in a multiref tag, and the json name of every member that has a multiref or doc tag, is non-empty and contains no blank, '=' or quote (names are registered untrimmed; ` passwd` is a key nobody can write). R17.8: tagToField never makes a registration conditional on the name being absent from the map (formatters use the json-only map, parsers the multiref map; both must resolve a repeated name to the last registered member). R17.6: every iteration of ParseSimple over a key=value part reaches the key lookup or returns an error (no shortcut, e.g. for empty values, skips the unknown-key test and the assignment).",
+			Explanation: "R17.18: in every struct of packages dsn and tds that carries multiref tags, flattened over embedded structs the way tagToField merges them, no json name or alias is claimed by two fields. R17.17: the exported TagToField returns the result of tagToField itself. R17.16: every way round FormatSimple's member loop passes the append of key=value. R17.15: setValue hands its value parameter itself to SetString/ParseBool/ParseInt, and FromEnv hands setValue element 1 of the KEY=value split (strings.SplitN) itself. R17.14: every fmt.Sprintf/Errorf/Fprintf call in package dsn has a constant format string. R17.13 (E-CONST): the call of ParseURI in Parse is guarded by a strings test whose constant is \"://\". R17.12: package dsn never calls url.PathEscape and FormatURI writes the properties through url.Values.Encode or url.QueryEscape (the escaping url.Query() inverts). Totality and rejection clauses of the property; round-trip equality is not decided. R17.1 (E-LEN): every slice/string index and slice expression in the functions reachable from dsn.Parse, ParseURI, ParseSimple, FormatURI, FormatSimple and FromEnv is proved in range from length facts (dominating len tests, `!= \"\"`, strings.Split/SplitN post-conditions, range/induction patterns) or is a listed reviewed invariant whose guard is re-checked; anything else is a violation (user-supplied DSN text can reach it). R17.2: in both parsers every setValue call is preceded by a comma-ok lookup of the key in the tag-to-field map whose !ok edge returns a non-nil error, and the looked-up field is the one set. R17.3 (E-CONST): the reflect.Kind case sets of setValue and of the formatters agree and setValue's default arm returns an error. R17.4: TagToField never registers the empty string as a key (every map update whose key comes from a split tag is guarded by key != \"\"), so an empty key cannot match a field. R17.5: in ParseURI the value used for a repeated query key is the LAST element of its value list (values[len(values)-1]). R17.7: ParseSimple only strips the surrounding quotes, so FormatSimple must put a string member between quotes unchanged: every use of the member's text in FormatSimple is fmt.Sprintf(\"%q\", s) or strconv.Quote(s) (identity on printable text without quotes and backslashes, non-ASCII included) or a plain concatenation with quote characters; %+q / QuoteToASCII and anything else is rejected. R17.9: in FormatURI every branch condition that depends on a member's text is the comparison of that text itself with the empty string (the documented `not set` skip); a test on a transformed copy (trimmed, lower-cased, its length against another bound) leaves values out of the URI that ParseURI then cannot restore. R17.10: setValue parses reflect.Int members with strconv.ParseInt(..., 0) or (..., 64) — the formatters write the full int, a narrower bitSize rejects values the library itself produced. R17.9 also covers the variables that carry a member's text out of the loop (user, password, host, port): no branch on them other than the comparison of the text with \"\". R17.11 (E-CONST over struct tags): every name in a multiref tag, and the json name of every member that has a multiref or doc tag, is non-empty and contains no blank, '=' or quote (names are registered untrimmed; ` passwd` is a key nobody can write). R17.8: tagToField never makes a registration conditional on the name being absent from the map (formatters use the json-only map, parsers the multiref map; both must resolve a repeated name to the last registered member). R17.6: every iteration of ParseSimple over a key=value part reaches the key lookup or returns an error (no shortcut, e.g. for empty values, skips the unknown-key test and the assignment).",
 			NotDecided:  "Round-trip equality, alias precedence in the simple form and panics inside package reflect for targets that lack the four tags ParseURI hard-codes are not decided.",
 			Assumptions: []string{"strings.Split(s, sep) with a non-empty separator returns at least one element; strings.SplitN(s, sep, 2) one or two", "url.Values entries are non-empty slices (net/url only creates entries by appending)"},
 		}})
@@ -51,6 +51,8 @@ func runC17(r *core.Run) {
 	defer valuesReachFieldsUnchanged(r, "R17.15")
 	r.Rule("R17.16", "FormatSimple writes every member", 1, false)
 	defer formatSimpleWritesAll(r, "R17.16")
+	r.Rule("R17.18", "every key and alias names exactly one member", 2, false)
+	defer aliasKeysUnique(r, "R17.18")
 	r.Rule("R17.17", "parsers and formatters see the same names: TagToField returns the tag map as built", 1, false)
 	defer func() {
 		p := r.Prog
